@@ -458,6 +458,7 @@ _ENV = {}
 def run_wsgi(testing, app, c):
     method, path = ROUTES[c['route']]
     path = c.get('path', path)
+    method = c.get('method', method)
     if c['meta']:
         method = 'WEBSOCKET'
     k = (method, path)
@@ -487,6 +488,7 @@ def run_wsgi(testing, app, c):
 async def run_asgi(testing, app, c):
     method, path = ROUTES[c['route']]
     path = c.get('path', path)
+    method = c.get('method', method)
     if c['meta']:
         method = 'WEBSOCKET'
     scope = testing.create_scope(path=path, method=method)
@@ -763,6 +765,36 @@ class Runner:
                                                'tower': tower, 'impl_trace': got, 'impl_ending': e,
                                                'expected': {'trace': m[1], 'ending': model_ending(m[2])}},
                                               key='shared-hooks-%d' % asgi)
+
+    # ---------------- class-level hooks and responders for FALCON_CUSTOM_HTTP_METHODS
+    def custom_method_block(self):
+        """Custom HTTP methods exist only if FALCON_CUSTOM_HTTP_METHODS is set before falcon is
+        imported: the block runs in a child process (this file as a script) against the same
+        staged sources; the parent compares the recorded traces with the model's `hooked`."""
+        import os
+        import subprocess
+        import sys
+        ctx = self.ctx
+        env = dict(os.environ, FALCON_CUSTOM_HTTP_METHODS='PURGE,FOO', PYTHONPATH=ctx.stage,
+                   PYTHONDONTWRITEBYTECODE='1')
+        r = subprocess.run([sys.executable, os.path.abspath(__file__), '--custom-method-child'], env=env,
+                           stdout=subprocess.PIPE, stderr=subprocess.PIPE, text=True, timeout=1800)
+        if r.returncode != 0:
+            ctx.violation('harness-crash', {'broken': 'C03 custom-method child', 'stderr': r.stderr[-2000:]},
+                          found_input=False, key='custom-child')
+            return
+        for rec in json.loads(r.stdout.strip().split('\n')[-1]):
+            c = rec['case']
+            m = self.model.run(wire_case(c))
+            ctx.count('custom-method-block')
+            ctx.note_case(('custom', rec['asgi'], c['method'], repr(c['hooks'])), True)
+            if (rec['trace'], rec['ending']) != (m[1], model_ending(m[2])):
+                ctx.violation('call-order-violated',
+                              {'case': c, 'what': 'class-level hooks on a resource whose serving responder is for the '
+                               'custom method %s (FALCON_CUSTOM_HTTP_METHODS=PURGE,FOO)' % c['method'],
+                               'impl_trace': rec['trace'], 'impl_ending': rec['ending'],
+                               'expected': {'trace': m[1], 'ending': model_ending(m[2])}},
+                              key='custom-method-%d' % rec['asgi'])
 
     # ---------------- raise T; add_error_handler(ancestor of T); raise T again
     def memo_block(self):
@@ -1211,6 +1243,7 @@ def main(ctx):
     # 2e. raise T; register a handler for an ancestor; raise T again   /   2f. concurrency
     r.memo_block()
     r.shared_hook_block()
+    r.custom_method_block()
     r.concurrency_block(4000 if quick else 100000)
     # 3. random deep stacks
     n = 3000 if quick else 40000
@@ -1238,8 +1271,90 @@ def replay(ctx, obj, runner=None):
         r.memo_block()
     elif 'shared hooked' in obj.get('what', ''):
         r.shared_hook_block()
+    elif 'custom method' in obj.get('what', ''):
+        r.custom_method_block()
     elif 'msgs' in c:
         r.lifespan([c])
     else:
         r.check([c], 'replay')
     ctx.note_case('replay', True)
+
+
+def custom_method_child():
+    """child process: FALCON_CUSTOM_HTTP_METHODS is set, falcon is imported fresh from the
+    staged sources; resources with class-level (and method-level) hooks serve GET, PURGE, FOO"""
+    import falcon
+    import falcon.asgi
+    from falcon import testing
+    assert 'PURGE' in falcon.constants.COMBINED_METHODS, falcon.constants.COMBINED_METHODS
+    logging.getLogger('falcon').setLevel(logging.CRITICAL + 1)
+    out = []
+    for asgi in (0, 1):
+        local = AppCache(falcon)
+        Handled = local.Handled
+
+        def mk_hook(j, before):
+            if asgi:
+                if before:
+                    async def hook(req, resp, resource, params):
+                        code = State.script[(S_HOOK, j)]
+                        State.trace.append([0, [S_HOOK, j], code])
+                        perform(falcon, Handled, [S_HOOK, j], code, resp)
+                else:
+                    async def hook(req, resp, resource):
+                        code = State.script[(S_HOOK, j)]
+                        State.trace.append([0, [S_HOOK, j], code])
+                        perform(falcon, Handled, [S_HOOK, j], code, resp)
+            else:
+                if before:
+                    def hook(req, resp, resource, params):
+                        code = State.script[(S_HOOK, j)]
+                        State.trace.append([0, [S_HOOK, j], code])
+                        perform(falcon, Handled, [S_HOOK, j], code, resp)
+                else:
+                    def hook(req, resp, resource):
+                        code = State.script[(S_HOOK, j)]
+                        State.trace.append([0, [S_HOOK, j], code])
+                        perform(falcon, Handled, [S_HOOK, j], code, resp)
+            return hook
+
+        def responder():
+            if asgi:
+                async def on_x(self, req, resp):
+                    code = State.script[(S_RESPONDER, 0)]
+                    State.trace.append([0, [S_RESPONDER, 0], code])
+                    perform(falcon, Handled, [S_RESPONDER, 0], code, resp)
+            else:
+                def on_x(self, req, resp):
+                    code = State.script[(S_RESPONDER, 0)]
+                    State.trace.append([0, [S_RESPONDER, 0], code])
+                    perform(falcon, Handled, [S_RESPONDER, 0], code, resp)
+            return on_x
+        # tower (outermost first): class-level before 0, class-level after 1, method-level after 2
+        ns = {}
+        for name in ('on_get', 'on_purge', 'on_foo'):
+            ns[name] = falcon.after(mk_hook(2, 0))(responder())
+        base = type('Base', (), {'on_foo': ns.pop('on_foo')})          # on_foo is inherited
+        cls = falcon.before(mk_hook(0, 1))(falcon.after(mk_hook(1, 0))(type('Res', (base,), ns)))
+        for indep in (0, 1):
+            basecase = mk_case(asgi, indep, [[0, 0, 0, -1, -1]])
+            app, _ = get_app(local, basecase)
+            app.add_route('/c', cls())
+            for method in ('GET', 'PURGE', 'FOO'):
+                for variant in range(4):
+                    hooks = [[1, 3 if variant == 1 else 0], [0, 3 if variant == 2 else 0], [0, 3 if variant == 3 else 0]]
+                    c = mk_case(asgi, indep, basecase['comps'], hooks=hooks)
+                    c['path'] = '/c'
+                    c['method'] = method
+                    if asgi:
+                        t, e = asyncio.run(run_asgi(testing, app, c))
+                    else:
+                        t, e = run_wsgi(testing, app, c)
+                    out.append({'asgi': asgi, 'case': c, 'trace': canon_trace(t), 'ending': e})
+    print(json.dumps(out))
+
+
+if __name__ == '__main__':
+    import sys
+    if '--custom-method-child' in sys.argv:
+        custom_method_child()
